@@ -243,7 +243,22 @@ def align(post_fkt, dhtv, truth_kft, Y_fdt, images, global_variant):
     return aligned[gmap], mapping, gmap
 
 
-def design_beamformers(name, Y_fdt, masks_kft, noise_variant):
+def bf_kwargs(name, bf_options):
+    """documented non-default options of get_bf_vector for `name`: 'use_eig' = the generalised eigenvalue problem is solved
+    by scipy.linalg.eig (unordered eigenvalues) instead of eigh, in the GEV beamformer and/or the rank-one / ATF estimate"""
+    if bf_options is None:
+        return {}
+    assert bf_options == 'use_eig', bf_options
+    core = name[:-len('+ban')] if name.endswith('+ban') else name
+    kw = {}
+    if core in ('gev', 'rank1_pca+gev', 'rank1_gev+gev'):
+        kw['use_eig'] = True
+    if core.startswith('rank1_gev+') or core == 'scaled_gev_atf+mvdr':
+        kw['atf_kwargs'] = {'use_eig': True}
+    return kw
+
+
+def design_beamformers(name, Y_fdt, masks_kft, noise_variant, bf_options=None):
     """(K, F, D) beamformers from mask-weighted PSDs"""
     from pb_bss.extraction import get_power_spectral_density_matrix, get_bf_vector
     K, F, T = masks_kft.shape
@@ -261,7 +276,7 @@ def design_beamformers(name, Y_fdt, masks_kft, noise_variant):
             noise = get_power_spectral_density_matrix(Y_fdt, np.clip(1 - m[:, k], 0, 1))     # (F, T) mask
         else:
             raise ValueError(noise_variant)
-        W.append(get_bf_vector(name, target, noise))
+        W.append(get_bf_vector(name, target, noise, **bf_kwargs(name, bf_options)))
     return np.stack(W), psd
 
 
